@@ -58,7 +58,11 @@ func main() {
 }
 
 func loadAll(repo, verif string) (*Prog, error) {
-	return LoadProg(repo, []string{"./..."}, []string{filepath.Join(verif, "spec")})
+	P, err := LoadProg(repo, []string{"./..."}, []string{filepath.Join(verif, "spec")})
+	if P != nil {
+		P.VerifDir = verif
+	}
+	return P, err
 }
 
 func cmdVC(args []string) int {
@@ -159,7 +163,7 @@ func (r *CheckRun) propFuncs() ([]string, error) {
 		if !touch {
 			continue
 		}
-		fn, ok := r.P.Funcs[k]
+		fn, ok := r.P.Funcs[c.Target]
 		if !ok || len(fn.Blocks) == 0 {
 			// interface methods and externals carry contracts but have no body
 			if ok || strings.Contains(k, ")") {
@@ -190,6 +194,7 @@ func (r *CheckRun) Run() (code int) {
 	P := r.P
 	// every contract must name an existing function or interface method
 	for k, c := range P.Spec.Contracts {
+		k = c.Target
 		if _, ok := P.Funcs[k]; !ok && !c.Assumed && !P.isInterfaceMethod(k) {
 			fmt.Fprintf(os.Stderr, "ENGINE-ERROR: contract at %s:%d names unknown function %s\n", c.File, c.Line, k)
 			return 2
@@ -213,7 +218,7 @@ func (r *CheckRun) Run() (code int) {
 	results := make([]fres, len(keys))
 	// VC generation is sequential (shared registries), solving is parallel
 	for i, k := range keys {
-		vc := NewVC(P, P.Funcs[k], r.Prop)
+		vc := NewVCFor(P, P.Spec.Contracts[k], r.Prop)
 		if c := vc.contract; c != nil {
 			vc.safetyProp = false
 			for _, sp := range c.SafetyProps {
